@@ -251,6 +251,7 @@ def dataset_case(env: Env, report, lrec, rrec, tags, label="datasets"):
                 sample={"tags": tags, "impl": impl, "failing": model["failing"]})
     report.count("datasets." + ("accepted" if status == "ok" else out))
     wf = model["well_formed"]
+    report.hit("dataset_accept_iff_wf")
     if wf:
         report.hit("dataset_accept_iff_wf:well_formed")
         if status != "ok":
@@ -407,6 +408,8 @@ def input_case(env: Env, report, user_sym, tags, label="input"):
     if not ci.same_value(before, user):
         fail(report, "input_accept_iff_documented", "input_mutated", case, impl, "check_input_section changed the user's dictionary")
     verdict = model["verdict"]
+    if verdict != "undecided":
+        report.hit("input_accept_iff_documented")
     if verdict == "accept":
         report.hit("input_accept_iff_documented:documented")
         if status != "ok":
